@@ -42,7 +42,8 @@ RULE = (
     "Non-trivial: metric cases with >= 2 non-coincident points; kernels with half_w != half_h; every rejection / string / cellsize case with "
     "a unit, res attr or non-square cell; distinct by SHA-1 of the case or enumeration index.")
 ASSUMPTIONS = [
-    "plane coordinates bounded by 1e6 in magnitude (no overflow/underflow of squares); positivity only asserted for points >= 1e-6 apart",
+    "plane coordinates are 0 or have magnitude in [1e-9, 1e6], so squares of coordinate differences neither overflow nor fall into the "
+    "subnormal range (the 4 eps relative rounding bound of sqrt(x*x+y*y) does not hold there); positivity only asserted for points >= 1e-6 apart",
     "sphere: lon in [-180,180], lat in [-90,90] (outside must raise); positivity asserted only when the true angular separation is >= 1e-6 deg; "
     "points identified on the sphere (lon +-180, any lon at a pole) need only be <= 1e-3 m apart; NaN coordinates are not generated",
     "triangle inequality up to the rounding of the formula: plane 4 eps (sum of sides); sphere 1e-6 m (scaled by R/6378137) + "
@@ -497,6 +498,13 @@ def body_dist_str(case, ctx):
             r.label("str:nonfinite_rejected_by_" + type(e).__name__)
             return r
         return r.fail("string.accepted(nonfinite)", "circle_kernel(1, 1, %r) returned shape %s" % (s, getattr(k, "shape", k)))
+    if expect == "observe_numeric":          # numeric radius whose str() uses exponent notation: outside the asserted domain, recorded only
+        try:
+            k = circle_kernel(case["cell"], case["cell"], case["value"])
+            r.label("str:observed_accepted:numeric_radius_exponent_repr(shape=%dx%d)" % k.shape)
+        except ValueError:
+            r.label("str:observed_rejected:numeric_radius_exponent_repr")
+        return r
     if expect == "observe":
         try:
             v = _get_distance(s)
@@ -585,7 +593,8 @@ def _coord(kind):
         return st.sampled_from(HALVES)
     if kind == "tenths":
         return st.sampled_from(TENTHS)
-    return st.floats(-1e6, 1e6, allow_nan=False, allow_infinity=False, width=64)
+    # non-zero coordinates have magnitude >= 1e-9: squares of coordinate differences (>= 1 ulp of 1e-9 = 2e-25) never underflow
+    return st.floats(-1e6, 1e6, allow_nan=False, allow_infinity=False, width=64).map(lambda v: 0.0 if abs(v) < 1e-9 else v)
 
 
 @st.composite
@@ -1016,6 +1025,8 @@ def string_enum():
         yield {"sub": "dist_str", "s": s, "expect": "lenient", "cls": cls, "num": num, "unit": unit}
     for s in ["nan", "NaN", "inf", "Infinity", "-inf", "nan m", "inf km", "infinity"]:
         yield {"sub": "dist_str", "s": s, "expect": "nonfinite", "cls": "nonfinite"}
+    yield {"sub": "dist_str", "s": "5e-05", "expect": "observe_numeric", "cls": "numeric_radius_exponent_repr", "cell": 1e-05, "value": 5e-05}
+    yield {"sub": "dist_str", "s": "3e+16", "expect": "observe_numeric", "cls": "numeric_radius_exponent_repr", "cell": 1e15, "value": 3e16}
     for u in VARIANT_SPELLINGS:
         yield {"sub": "dist_str", "s": "5 " + u, "expect": "observe", "cls": "spelling:" + u.replace(" ", "_"), "num": "5", "unit": u}
 
